@@ -92,4 +92,14 @@ text.  Such references are not generated by the harness. -/
 theorem doubled_separator_spelling_is_not_the_text :
     (parseRef 0 false "Gen//o:ref".toList).map Parts.absSpelling = some "/o:ref".toList := by decide
 
+/-- why `looped_reference_to_paths` sorts on `int(<iteration>)`: sorting the instance ids as strings lists the 11
+instances of a loop as `0, 1, 10, 2, …, 9` — a consumer that takes the last path / value for the final iteration reads
+iteration 9 —, the numeric key lists them `0 … 10` (with up to 10 instances the two orders coincide) -/
+theorem string_order_is_not_iteration_order :
+    ((orderInstancesLex ((List.range 11).map fun i => (instId 0 i "A".toList, i))).map (·.2))
+      = [0, 1, 10, 2, 3, 4, 5, 6, 7, 8, 9] ∧
+    ((orderInstances ((List.range 11).map fun i => (instId 0 i "A".toList, i))).map (·.2)) = List.range 11 ∧
+    ((orderInstancesLex ((List.range 10).map fun i => (instId 0 i "A".toList, i))).map (·.2)) = List.range 10 := by
+  decide
+
 end St4sd.C10.Witness
